@@ -152,15 +152,50 @@ def rule_segmerge(ctx):
     red = enc[0].args[1] if len(enc[0].args) > 1 else dict(enc[0].kw).get("reduce_extended_chords")
     yield ob(R, f, "chord.merge_chord_intervals:encoding", enc[0].args[0].op == "param" and red is not None and tm.is_const(red, True), "labels are encoded with extended chords reduced (encode_many(labels, True))")
     app = [m for m in s.by_kind("mutate") if m.how == "method:append" and m.root]
-    ext = [m for m in s.by_kind("mutate") if m.how == "setitem" and m.root]
+    ext = [m for m in s.by_kind("mutate") if m.how == "setitem" and m.root and (len(app) != 1 or m.root == app[0].root)]
     need(len(app) == 1 and len(ext) == 1, R, "merge_chord_intervals: append / extend stores not found")
     # a new interval starts iff the encoded chord differs from the previous one in root, bitmap or bass.  The condition
     # is read as a Boolean formula over the three atoms d_k = "component k differs" (x != prev, np.any(x != prev),
     # not np.all(x == prev), ... in any arrangement, De Morgan included) and compared on all 8 valuations.
     conds_app = [(c, p) for c, p in symeval.pc_conds(app[0].pc)]
-    cond = conds_app[-1][0] if conds_app else None
+    # vectorised form: the loop runs over a Boolean mask  m = ones(n); m[1:] = V  with V an element-wise formula over
+    # the adjacent differences X[1:] != X[:-1] of the three encodings; the first row always starts an interval
+    def mask_formula(c):
+        base = c.a[0] if c.op in ("iter", "each") and c.a and hasattr(c.a[0], "op") else None
+        if base is None or base.op != "upd" or base.a[1] != "setitem":
+            return None
+        init, _how, key, val = base.a[0], base.a[1], base.a[2], base.a[3]
+        ones = init.op == "call" and call_name(init) == "np.ones" and "bool" in tm.show(init, 3)
+        tail = key.op == "slice" and tm.is_const(key.a[0], 1) and tm.is_const(key.a[1], None) and tm.is_const(key.a[2], None)
+        if not (ones and tail):
+            return None
+        return val
+
+    vec = None
+    if conds_app:
+        vec = mask_formula(conds_app[-1][0])
+    if vec is not None:
+        conds_app = conds_app[:-1] + [(vec, conds_app[-1][1])]
+
+    def _adjacent(y):
+        """X[1:] cmp X[:-1] (either order) with X = encoding component k -> k"""
+        def part(z):
+            if z.op == "sub" and z.a[1].op == "slice" and z.a[0].op == "sub" and z.a[0].a[0] is enc[0].term and z.a[0].a[1].op == "const":
+                sl = z.a[1]
+                if tm.is_const(sl.a[0], 1) and tm.is_const(sl.a[1], None) and tm.is_const(sl.a[2], None):
+                    return int(z.a[0].a[1].a[0]), "cur"
+                if tm.is_const(sl.a[0], None) and tm.is_const(sl.a[1], -1) and tm.is_const(sl.a[2], None):
+                    return int(z.a[0].a[1].a[0]), "prev"
+            return None, None
+
+        (k1, w1), (k2, w2) = part(y.a[1]), part(y.a[2])
+        if k1 is not None and k1 == k2 and {w1, w2} == {"cur", "prev"}:
+            return k1
+        return None
 
     def comp_of(y):
+        if vec is not None:
+            return _adjacent(y)
         for side in (y.a[1], y.a[2]):
             if side.op == "iter" and side.a[0].op == "sub" and side.a[0].a[0] is enc[0].term and side.a[0].a[1].op == "const":
                 other = y.a[2] if side is y.a[1] else y.a[1]
@@ -180,7 +215,20 @@ def rule_segmerge(ctx):
             if t.a[0] == "and":
                 return lambda d, gs=gs: all(g(d) for g in gs)
             return lambda d, gs=gs: any(g(d) for g in gs)
-        if t.op == "call" and call_name(t) in ("np.any", "np.all") and len(t.a[1]) == 1 and t.a[1][0].op == "cmp":
+        if vec is not None and t.op == "bin" and t.a[0] in ("|", "&"):
+            g1, g2 = formula(t.a[1]), formula(t.a[2])
+            if t.a[0] == "|":
+                return lambda d, g1=g1, g2=g2: g1(d) or g2(d)
+            return lambda d, g1=g1, g2=g2: g1(d) and g2(d)
+        if vec is not None and t.op == "call" and call_name(t) in ("np.logical_or", "np.logical_and") and len(t.a[1]) == 2:
+            g1, g2 = formula(t.a[1][0]), formula(t.a[1][1])
+            if call_name(t) == "np.logical_or":
+                return lambda d, g1=g1, g2=g2: g1(d) or g2(d)
+            return lambda d, g1=g1, g2=g2: g1(d) and g2(d)
+        if vec is not None and (t.op == "un" and t.a[0] == "~" or t.op == "call" and call_name(t) == "np.logical_not" and len(t.a[1]) == 1):
+            g = formula(t.a[1] if t.op == "un" else t.a[1][0])
+            return lambda d, g=g: not g(d)
+        if t.op == "call" and call_name(t) in ("np.any", "np.all") and len(t.a[1]) == 1 and t.a[1][0].op == "cmp" and (vec is None or tm.is_const(dict(t.a[2]).get("axis", tm.none()), 1) or tm.is_const(dict(t.a[2]).get("axis", tm.none()), -1)):
             y = t.a[1][0]
             k = comp_of(y)
             if k is not None and call_name(t) == "np.any" and y.a[0] == "!=":
